@@ -629,6 +629,12 @@ func c01Scenarios(tier string) []scenario {
 	if tier == "thorough" {
 		p = 2
 	}
+	// a second message is written while a compressed message of more than one deflate
+	// block is being streamed (the held-back tail of the stream belongs to the open message)
+	for _, k := range []connCfg{{Client: false, Flate: true, Thr: 1}, {Client: true, Flate: true, Thr: 1, CNCT: true, SNCT: true}} {
+		prm := c05Params{Prop: "C01", Name: "W2-big", K: k, Writers: [][]wop{{{Stream: true, Chunks: []int{70000, 10}}}, {{Text: true, Chunks: []int{10}}}}}
+		scs = append(scs, scenario{Name: prm.Name + "/" + k.String(), Cfg: explore.Config{P: p, Horizon: 60e9}, Setup: c05Setup(prm)})
+	}
 	for _, k := range []connCfg{{Client: true}, {Client: false}} {
 		for _, prm := range []c05Params{
 			{Prop: "C01", Name: "WP-4088", K: k, Writers: [][]wop{{{Stream: true, Chunks: []int{4088, 100}}}}, Pinger: true},
